@@ -512,6 +512,46 @@ def oracle_callback_view(script, obs):
     return None
 
 
+def _cb_world_view(l):
+    """the part of a callback log entry after the reported entity's snapshot: the whole world as the callback sees it"""
+    p = 7
+    if l[5] == 1 and len(l) > 7:
+        p = 8 + 4 * l[7]
+    return tuple(l[p:])
+
+REMOVAL_EVENTS = {250, 252, 255}      # OnRemoveEntity, OnRemoveComponents, OnRemoveRelations
+
+def oracle_batch_timing(script, obs):
+    """C09, last sentence, read off the implementation alone: within one batch operation every removal
+    callback sees the same world (nothing of the batch changed yet), every other callback sees the same
+    world (everything changed), and no removal callback comes after another one."""
+    evt = []                              # event type per observer object, from the script
+    for k, (op, st) in enumerate(zip(script, obs)):
+        if op[0] == 25 and st["err"] == 0:
+            evt.append(op[1])
+        if op[0] not in (3, 12, 30, 31, 32) or st["err"] != 0:
+            continue
+        pre, post, seen_other = None, None, False
+        for l in st["log"]:
+            if not l or l[0] != 100 or l[1] >= len(evt):
+                continue
+            v = _cb_world_view(l)
+            if evt[l[1]] in REMOVAL_EVENTS:
+                if seen_other:
+                    return k, "%s: a removal callback (observer %d) runs after a callback of another kind" % (OP_NAMES.get(op[0], op[0]), l[1])
+                if pre is None:
+                    pre = v
+                elif v != pre:
+                    return k, "%s: the removal callback of observer %d for entity (%d,%d) sees a world in which part of the batch is already changed" % (OP_NAMES.get(op[0], op[0]), l[1], l[2], l[3])
+            else:
+                seen_other = True
+                if post is None:
+                    post = v
+                elif v != post:
+                    return k, "%s: the callback of observer %d for entity (%d,%d) sees a world in which part of the batch is not yet changed" % (OP_NAMES.get(op[0], op[0]), l[1], l[2], l[3])
+    return None
+
+
 # ---------------------------------------------------------------- per-property configuration
 
 # properties whose checks also evaluate the relation-tier invariant on every stream state
@@ -529,13 +569,13 @@ PROPS = {
     "C05": dict(streams=[("cache", 180)], proj=proj_query, theorems=["Properties/C05.v"],
                 oracles=[oracle_query_once], key_ops={16, 17, 18}),
     "C06": dict(streams=[("batch", 180)], proj=proj_batch, theorems=["Properties/C06.v"],
-                oracles=[], key_ops={3, 12, 30, 31, 32}),
+                oracles=[oracle_batch_timing], key_ops={3, 12, 30, 31, 32}),
     "C07": dict(streams=[("lock", 150)], proj=proj_lock, theorems=["Properties/C07.v"],
                 oracles=[oracle_locked_rejects], key_ops={19, 20, 21}),
     "C08": dict(streams=[("observers", 180)], proj=proj_observers, theorems=["Properties/C08.v"],
                 oracles=[], key_ops={26, 27, 28}),
     "C09": dict(streams=[("observers", 180)], proj=proj_callbacks, theorems=["Properties/C09.v"],
-                oracles=[oracle_callback_view], key_ops={26}),
+                oracles=[oracle_callback_view, oracle_batch_timing], key_ops={26}),
     "C10": dict(streams=[("misuse", 180)], proj=proj_err_state, theorems=["Properties/C10.v"],
                 oracles=[oracle_unchanged_on_error], key_ops=set(range(0, 38))),
     "C11": dict(streams=[("store", 100), ("shrink", 60)], proj=proj_cells, theorems=["Properties/C11.v"],
